@@ -61,6 +61,11 @@ def conclude(pid, tier, seed, obls, infos, undecided_reasons, wall, write_eviden
                 if hit and ob.status == UNDECIDED:
                     ob.status = FAILED
                     ob.detail += "\n(promoted from undecided: the witness search found a failing input on the real code)"
+                elif not hit and ob.status == FAILED and getattr(ob, "needs_witness", False):
+                    # contracts that rest on a hand lemma or demand more than the panic-freedom the property asks for:
+                    # a failed obligation without a failing input of the real code is reported as undecided, not as an alarm
+                    ob.status = UNDECIDED
+                    ob.detail += "\n(the obligation failed but the witness program found no failing input on the real code: reported as undecided)"
     for ob in obls:
         w = getattr(ob, "witness", None)
         if ob.backend == "kani" and ob.status == FAILED and isinstance(w, dict):
@@ -72,6 +77,11 @@ def conclude(pid, tier, seed, obls, infos, undecided_reasons, wall, write_eviden
                 # the Kani playback confirmed the failure on the sliced expression only: also look for an
                 # end-to-end failing input of the real function
                 hit = witness.attach(ob, w["mode"], w["key"], seed, tier)
+                if not hit and w.get("required"):
+                    ob.status = UNDECIDED
+                    ob.detail += "\n(the contract fails on the sliced expression but the witness program found no end-to-end failing input on the real code: reported as undecided)"
+                    ob.replay = dict(prev, confirmed=False, real_code_witness=ob.replay)
+                    continue
                 ob.replay = dict(prev, confirmed=True, real_code_witness=ob.replay,
                                  note="Kani concrete playback reproduces the failure on the sliced expression; "
                                       + ("the witness program reproduces it end-to-end on the real crate" if hit else
